@@ -102,6 +102,9 @@ def slotsSize : List SlotScope → Nat
   | [] => 0
   | sc :: r => scSize sc + slotsSize r
 
+/-- what a context can still hand out: the content of its slot scopes and the content the page handed to its layout chain -/
+def ctxSize (ctx : Ctx) : Nat := slotsSize ctx.slots + scSize ctx.inherited
+
 theorem nSize_pos (n : Node) : 0 < nSize n := by cases n <;> simp [nSize] <;> omega
 
 theorem lSize_drop_le : ∀ (k : Nat) (ns : List Node), lSize (ns.drop k) ≤ lSize ns
@@ -221,15 +224,15 @@ def Call.ctx : Call → Ctx
 def Call.depth (c : Call) : Nat := includeLimit + 1 - c.ctx.chain.length
 
 def Call.meas : Call → Nat
-  | .list ctx ns => 10 * (lSize ns + slotsSize ctx.slots) + 7
-  | .plain ctx _ attrs kids => 10 * (1 + attrs.length + lSize kids + slotsSize ctx.slots) + 4
-  | .asElem ctx _ attrs kids => 10 * (1 + attrs.length + lSize kids + slotsSize ctx.slots) + 5
-  | .vfor ctx _ attrs kids rest => 10 * (1 + attrs.length + lSize kids + lSize rest + slotsSize ctx.slots) + 6
-  | .for_ ctx _ attrs kids _ => 10 * (1 + (loopInstanceAttrs attrs).length + lSize kids + slotsSize ctx.slots) + 9
-  | .items ctx _ attrs kids _ => 10 * (1 + attrs.length + lSize kids + slotsSize ctx.slots) + 8
-  | .tmpl ctx attrs kids => 10 * (1 + attrs.length + lSize kids + slotsSize ctx.slots) + 3
+  | .list ctx ns => 10 * (lSize ns + ctxSize ctx) + 7
+  | .plain ctx _ attrs kids => 10 * (1 + attrs.length + lSize kids + ctxSize ctx) + 4
+  | .asElem ctx _ attrs kids => 10 * (1 + attrs.length + lSize kids + ctxSize ctx) + 5
+  | .vfor ctx _ attrs kids rest => 10 * (1 + attrs.length + lSize kids + lSize rest + ctxSize ctx) + 6
+  | .for_ ctx _ attrs kids _ => 10 * (1 + (loopInstanceAttrs attrs).length + lSize kids + ctxSize ctx) + 9
+  | .items ctx _ attrs kids _ => 10 * (1 + attrs.length + lSize kids + ctxSize ctx) + 8
+  | .tmpl ctx attrs kids => 10 * (1 + attrs.length + lSize kids + ctxSize ctx) + 3
   | .incl _ _ _ _ => 0
-  | .slot ctx attrs kids => 10 * (1 + attrs.length + lSize kids + slotsSize ctx.slots) + 3
+  | .slot ctx attrs kids => 10 * (1 + attrs.length + lSize kids + ctxSize ctx) + 3
 
 /-- the call converges, from every state -/
 def Call.Conv (W : World) : Call → Prop
@@ -400,11 +403,35 @@ theorem step_slot (ctx : Ctx) (attrs : List Attr) (kids : List Node)
   intro st
   refine conv_of_succ (fun f => (monoAt_all W f).slot ctx st attrs kids) (Conv.halts ?_)
   simp only [evalSlot]
+  -- supplied content (from a slot scope or from the page), evaluated in a context that no longer holds it
+  have hsup : ∀ (content : SlotContent) (ctx' : Ctx), ctx'.chain = ctx.chain → cSize content + ctxSize ctx' ≤ ctxSize ctx →
+      Conv (fun f => match content.tmpl with
+        | some tk =>
+          bindR (evalList W f ctx' { st with stack := slotScopeStack st.stack (scopedVarName tk.1) (slotProps W.P (st.stack.envMap W.P.cfg) attrs) } tk.2)
+            (fun res st1 => Res.ok (res, { st1 with stack := st1.stack.pop }))
+        | none => evalList W f ctx' st content.nodes) := by
+    intro content ctx' hch hsz
+    cases ht : content.tmpl with
+    | none =>
+      simp only []
+      refine ih (Call.list _ _) ?_ st
+      right; simp only [Call.depth, Call.ctx, Call.meas, hch]; simp only [cSize, ht] at hsz; omega
+    | some tk =>
+      simp only []
+      refine conv_bindR (ih (Call.list _ _) ?_ _) (fun res st1 => conv_const _ (ok_ne_fuel _))
+      right; simp only [Call.depth, Call.ctx, Call.meas, hch]; simp only [cSize, ht] at hsz; omega
   have hk : Conv (fun f => match ctx.inherited.lookup (if getAttr attrs (S "name") == [] then S "default" else getAttr attrs (S "name")) with
-      | some content => Res.ok (content.nodes, st)
+      | some content =>
+        (match content.tmpl with
+         | some tk =>
+           bindR (evalList W f { ctx with slots := [], inherited := [] } { st with stack := slotScopeStack st.stack (scopedVarName tk.1) (slotProps W.P (st.stack.envMap W.P.cfg) attrs) } tk.2)
+             (fun res st1 => Res.ok (res, { st1 with stack := st1.stack.pop }))
+         | none => evalList W f { ctx with slots := [], inherited := [] } st content.nodes)
       | none => if (!kids.isEmpty) = true then evalList W f ctx st kids else Res.ok ([], st)) := by
-    cases ctx.inherited.lookup (if getAttr attrs (S "name") == [] then S "default" else getAttr attrs (S "name")) with
-    | some content => exact conv_const _ (ok_ne_fuel _)
+    cases hl : ctx.inherited.lookup (if getAttr attrs (S "name") == [] then S "default" else getAttr attrs (S "name")) with
+    | some content =>
+      have hc := scSize_lookup ctx.inherited _ content hl
+      exact hsup content _ rfl (by simp only [ctxSize, slotsSize, scSize]; omega)
     | none =>
       refine conv_ite _ (fun _ => ih (Call.list ctx kids) ?_ st) (fun _ => conv_const _ (ok_ne_fuel _))
       right; simp only [Call.depth, Call.ctx, Call.meas]; omega
@@ -417,17 +444,7 @@ theorem step_slot (ctx : Ctx) (attrs : List Attr) (kids : List Node)
     | none => exact hk
     | some content =>
       have hc := scSize_lookup sc _ content hl
-      simp only []
-      cases ht : content.tmpl with
-      | none =>
-        simp only []
-        refine ih (Call.list _ _) ?_ st
-        right; simp only [Call.depth, Call.ctx, Call.meas, slotsSize]; simp only [cSize, ht] at hc; omega
-      | some tk =>
-        simp only []
-        refine conv_bindR (ih (Call.list _ _) ?_ _) (fun res st1 => conv_const _ (ok_ne_fuel _))
-        right; simp only [Call.depth, Call.ctx, Call.meas, slotsSize]; simp only [cSize, ht] at hc; omega
-
+      exact hsup content _ rfl (by simp only [ctxSize, slotsSize]; omega)
 
 theorem below_list_sub {ctx : Ctx} {n : Node} {rest ns' : List Node} (h : lSize ns' ≤ lSize rest) :
     (Call.list ctx ns').Below (.list ctx (n :: rest)) := by
